@@ -234,7 +234,9 @@ func (s *metricSchemaStore) PrepareFlush() {
 	s.lock.Lock()
 	defer s.lock.Unlock()
 
-	if s.immutable == nil {
+	// NOTE: never swap an empty mutable store: flush ignores an empty immutable store(keeps it),
+	// then the store can not be swapped any more and new data is never flushed.
+	if s.immutable == nil && !s.mutable.IsEmpty() {
 		s.immutable = s.mutable
 		s.mutable = imap.NewIntMap[*metric.Schema]()
 	}
